@@ -667,6 +667,8 @@ def _drive_and_judge(case, ctx, srv, tymist, conn, reqs, calls):
                                                     ("short" if a["cl"] < len(expected(r)[3]) else "long"))
         if a["style"] == "httperror":
             clmode = "httperror"
+        if a["style"] == "restart":
+            clmode = f"restart:{'length' if a['first']['cl'] is not None else 'none'}->{clmode}:{a['restart_style']}"
         has_empty = any(p == "" for p in a.get("pieces", ())) or a.get("pre", 0) > 0
         sig.append([r["ver"], (r["conn"] or "").lower(), a["style"], clmode, min(np_, 7) if np_ < 20 else 20, has_empty])
         ctx.count("empty_pieces_scripted", sum(1 for p in a.get("pieces", ()) if p == "") + a.get("pre", 0))
@@ -736,8 +738,7 @@ def _drive_and_judge(case, ctx, srv, tymist, conn, reqs, calls):
         # a body delimited only by EOF although the request was persistent: either the server closed right after it
         # (delimited by close; the body equals the script) or it went on serving requests on this connection - then
         # the response was unframed while the connection stayed open and the "body" swallowed what followed.
-        if (m.framing == "eof" and persistent(r) and m.body != want_body and m.body.startswith(want_body)
-                and len(calls) > k + 1):
+        if m.framing == "eof" and persistent(r) and m.body != want_body and len(calls) > k + 1:
             viol(unframed_key(r, k),
                  f"response #{k} (to {kind_of(r)}) has neither Content-Length nor Transfer-Encoding: chunked, the server kept "
                  f"serving the connection (app called for {len(calls) - k - 1} later request(s)) and only the final close ends it: "
